@@ -20,7 +20,7 @@ type engine struct{}
 
 func (engine) Name() string { return "nrisim" }
 func (engine) Properties() []string {
-	return []string{"C01", "C02", "C03", "C04", "C05", "C08", "C09", "C11", "C12", "C13", "C14", "C16"}
+	return []string{"C01", "C02", "C03", "C04", "C05", "C08", "C09", "C11", "C12", "C13", "C14", "C15", "C16"}
 }
 func (engine) Components() (real, stub []string) {
 	return []string{
@@ -51,6 +51,13 @@ func (p *Plan) Simplify() []sim.Plan {
 		q := *p
 		q.Order = 0
 		out = append(out, &q)
+	}
+	if len(p.Conc) > 2 {
+		for i := range p.Conc {
+			q := *p
+			q.Conc = append(append([]Op(nil), p.Conc[:i]...), p.Conc[i+1:]...)
+			out = append(out, &q)
+		}
 	}
 	// plain annotations
 	for i, o := range p.Ops {
@@ -109,6 +116,13 @@ func (e engine) Execute(prop string, plan sim.Plan, seed uint64, res *sim.RunRes
 	}
 	or := newOracles(w)
 	or.afterBoot()
+	if prop == "C15" {
+		w.runC15(or)
+		res.Nontrivial = res.Extra["task-switches"] >= 2
+		res.SimSeconds = vw.SimulatedSeconds()
+		res.Digest = fmt.Sprintf("%016x", vw.LogDigest())
+		return
+	}
 	changes := w.runOps(or, nil, nil)
 	if !w.dead && len(res.Violations) == 0 {
 		or.atEnd()
